@@ -363,6 +363,35 @@ def fam_c04_delete():
     return out
 
 
+def fam_c04_ext(step=13):
+    """The host has installed an external lookup on the outermost scope that resolves the names a and b (to 99): a name the script binds in any
+    enclosing scope still wins everywhere -- in blocks, functions and modules -- and only an unbound name reaches the lookup."""
+    out = []
+    k = 0
+    for p in fam_c04(2):
+        d1 = p["id"].count("_") == 0
+        k += 1
+        if d1 or k % step == 0:
+            out.append({"id": p["id"].replace("c04-", "c04-ext-", 1), "prog": p["prog"], "ext": ["a", "b"]})
+    def add(n, prog, ext=("a", "b")): out.append({"id": "c04-ext-" + n, "prog": prog, "ext": list(ext)})
+    for pre in ("set", "none"):
+        setup = [Let("a", I(10))] if pre == "set" else []
+        add("module-body-%s" % pre, setup + [Module("mo", [rd("a"), If(B(True), [rd("a")]), Let("c", Id("a")), rd("c")]), rd("a"), Ret(I(0))])
+        add("module-func-%s" % pre, setup + [Module("mo", [FnStmt("g", [], [Ret(Id("a"))]), FnStmt("inc", [], [Let("a", Bin("+", Id("a"), I(1))), Ret(Id("a"))])]),
+                                            P(ACall(Member(Id("mo"), "g"))), P(ACall(Member(Id("mo"), "inc"))), P(ACall(Member(Id("mo"), "g"))), rd("a"), Ret(I(0))])
+        add("module-nested-%s" % pre, setup + [Module("mo", [Module("mi", [FnStmt("g", [], [Ret(Id("a"))])]), FnStmt("h", [], [Ret(ACall(Member(Id("mi"), "g")))])]),
+                                              P(ACall(Member(Id("mo"), "h"))), Ret(I(0))])
+        add("module-in-func-%s" % pre, setup + [FnStmt("mk", [], [Var("a", I(20)), Module("mo", [FnStmt("g", [], [Ret(Id("a"))])]), Ret(ACall(Member(Id("mo"), "g")))]), P(Call("mk")), rd("a"), Ret(I(0))])
+        add("closure-%s" % pre, setup + [FnStmt("mk", [], [Ret(Fn([], [Ret(Id("a"))]))]), Let("f", Call("mk")), P(ACall(Id("f"))), Let("a", I(30)), P(ACall(Id("f"))), Ret(I(0))])
+        add("delete-%s" % pre, setup + [rd("a"), Delete(S("a")), rd("a"), Let("a", I(5)), rd("a"), Delete(S("a"), B(True)), rd("a"), Ret(I(0))])
+        add("opasg-%s" % pre, setup + [If(B(True), [E(OpAsg(Id("a"), "+", I(2))), rd("a")]), rd("a"), Ret(I(0))])
+    add("call-unbound", [P(Nilco(Call("a", I(1)), S("notfunc"))), Ret(I(0))])
+    add("shadow-param", [FnStmt("f", ["a"], [Ret(Id("a"))]), P(Call("f", I(1))), FnStmt("g", ["x"], [Ret(Id("a"))]), P(Call("g", I(1))), Ret(I(0))])
+    add("forin-var", [ForIn("a", L(I(1), I(2)), [rd("a")]), rd("a"), Ret(I(0))])
+    add("catch-var", [Try([Throw(S("t"))], "a", [rd("a")]), rd("a"), Ret(I(0))])
+    return out
+
+
 def fam_closures():
     out = []
     def add(n, prog): out.append({"id": "c04-clo-" + n, "prog": prog})
@@ -558,6 +587,25 @@ def fam_c09():
     add("break-in-try", [ForIn("i", L(I(1), I(2), I(3)), [Try([If(Bin("==", Id("i"), I(2)), [BRK])], "e", [P(50)]), P(Id("i"))]), P(9), Ret(I(0))])
     add("continue-in-try", [ForIn("i", L(I(1), I(2), I(3)), [Try([If(Bin("==", Id("i"), I(2)), [CNT])], "e", [P(50)]), P(Id("i"))]), P(9), Ret(I(0))])
     add("return-in-catch", [FnStmt("f", [], [Try([Throw(S("x"))], "e", [P(2), Ret(I(2))]), P(3), Ret(I(3))]), P(Call("f")), Ret(I(0))])
+    # a spread call deferred: a variadic callee receives the elements, not the list
+    vdef = FnStmt("v", ["rest"], [P(Id("rest")), Ret(Len_(Id("rest")))], va=True)
+    v1def = FnStmt("v1", ["a", "rest"], [P(Id("a")), P(Id("rest")), Ret(I(0))], va=True)
+    add("defer-spread-variadic", [vdef, FnStmt("d", [], [Defer(Call("v", PV(1, L(I(7), I(8))), spread=True)), P(40), Ret(I(0))]), E(Call("d")), P(41), Ret(I(0))])
+    add("defer-spread-variadic-fixed", [v1def, FnStmt("d", [], [Defer(Call("v1", PV(1, I(1)), PV(2, L(I(7), I(8))), spread=True)), P(40), Ret(I(0))]), E(Call("d")), P(41), Ret(I(0))])
+    add("defer-spread-variadic-empty", [vdef, FnStmt("d", [], [Defer(Call("v", PV(1, L()), spread=True)), P(40), Ret(I(0))]), E(Call("d")), Ret(I(0))])
+    add("defer-spread-go-variadic", [FnStmt("d", [], [Defer(Call("pn", PV(1, I(1)), PV(2, L(I(7), I(8))), spread=True)), P(40), Ret(I(0))]), E(Call("d")), Ret(I(0))])
+    add("defer-spread-fixed", [FnStmt("f2", ["a", "b"], [P(Id("a")), P(Id("b")), Ret(I(0))]), FnStmt("d", [], [Defer(Call("f2", PV(1, L(I(7), I(8))), spread=True)), P(40), Ret(I(0))]), E(Call("d")), Ret(I(0))])
+    add("defer-spread-anon-variadic", [FnStmt("d", [], [Defer(ACall(Fn(["rest"], [P(Id("rest")), Ret(I(0))], va=True), PV(1, L(I(7), I(8))), spread=True)), P(40), Ret(I(0))]), E(Call("d")), Ret(I(0))])
+    add("defer-spread-toplevel", [vdef, Defer(Call("v", PV(1, L(I(7), I(8))), spread=True)), P(40), Ret(I(0))])
+    # the result is the value `return` computed: deferred calls that later store into the place it was read from do not change it
+    rpre = [Let("la", L(S("a"), S("b"))), Let("ma", M((S("k"), I(10)))), Let("xa", I(10))]
+    for nm, place, store in (("item", Idx(Id("la"), I(0)), Let([Idx(Id("la"), I(0))], [NIL])), ("member", Member(Id("ma"), "k"), Let([Member(Id("ma"), "k")], [I(100)])),
+                             ("mapitem", Idx(Id("ma"), S("k")), Let([Idx(Id("ma"), S("k"))], [I(100)])), ("var", Id("xa"), Let("xa", I(100)))):
+        add("return-then-deferred-store-" + nm, rpre + [FnStmt("pop", [], [Defer(ACall(Fn([], [store, Ret(I(0))]))), Ret(place)]), P(Call("pop")), P(place), Ret(I(0))])
+        add("return2-then-deferred-store-" + nm, rpre + [FnStmt("pop", [], [Defer(ACall(Fn([], [store, Ret(I(0))]))), Ret(place, I(1))]), P(Call("pop")), P(place), Ret(I(0))])
+        add("return-then-deferred-store-toplevel-" + nm, rpre + [Defer(ACall(Fn([], [store, P(50), Ret(I(0))]))), P(40), Ret(place)])
+        add("return-then-deferred-store-five-" + nm, rpre + [FnStmt("pop", ["a", "b", "c", "d", "e"], [Defer(ACall(Fn([], [store, Ret(I(0))]))), Ret(place)]), P(Call("pop", I(1), I(2), I(3), I(4), I(5))), P(place), Ret(I(0))])
+        add("return-then-deferred-store-named-" + nm, rpre + [FnStmt("st", [], [store, Ret(I(0))]), FnStmt("pop", [], [Defer(Call("st")), Ret(place)]), P(Call("pop")), P(place), Ret(I(0))])
     return out
 
 
@@ -674,6 +722,43 @@ def fam_c07():
         add("snapshot-member%s" % op, spre + [P(Bin(op, Member(Id("ma"), "k"), Call("bm"))), P(Id("ma")), Ret(I(0))])
         add("snapshot-var%s" % op, spre + [P(Bin(op, Id("xa"), Call("bx"))), P(Id("xa")), Ret(I(0))])
         add("snapshot-paren-item%s" % op, spre + [P(Bin(op, {"k": "paren", "e": Idx(Id("la"), I(0))}, Call("bl"))), Ret(I(0))])
+    # ... also when the call goes through the reflect path (variadic, five parameters, spread), a deferred call, or to a Go function
+    shapes = [FnStmt("tv", ["a", "rest"], [P(Id("a")), Ret(Id("a"), Id("rest"))], va=True), FnStmt("t5", ["a", "b", "c", "d", "e"], [P(Id("a")), Ret(L(Id("a"), Id("b"), Id("e")))]),
+              FnStmt("two", ["a", "b"], [P(Id("a")), Ret(Id("a"), Id("b"))])]
+    for nm, place, bump in (("item", Idx(Id("la"), I(0)), "bl"), ("member", Member(Id("ma"), "k"), "bm"), ("var", Id("xa"), "bx")):
+        add("snapshot-args-variadic-" + nm, spre + shapes + [P(Call("tv", place, Call(bump))), Ret(I(0))])
+        add("snapshot-args-variadic-rest-" + nm, spre + shapes + [P(Call("tv", I(0), place, Call(bump))), Ret(I(0))])
+        add("snapshot-args-five-" + nm, spre + shapes + [P(Call("t5", place, Call(bump), I(3), I(4), place)), Ret(I(0))])
+        add("snapshot-args-spread-" + nm, spre + shapes + [P(Call("two", place, L(Call(bump)), spread=True)), Ret(I(0))])
+        add("snapshot-args-spread-variadic-" + nm, spre + shapes + [P(Call("tv", place, L(Call(bump), I(5)), spread=True)), Ret(I(0))])
+        add("snapshot-args-anon-" + nm, spre + shapes + [P(ACall(Id("tv"), place, Call(bump))), P(ACall(Fn(["a", "b", "c", "d", "e"], [Ret(Id("a"))]), place, Call(bump), I(3), I(4), I(5))), Ret(I(0))])
+        add("snapshot-args-defer-" + nm, spre + shapes + [FnStmt("d", [], [Defer(Call("tv", place, Call(bump))), Defer(Call("two", place, Call(bump))), P(40), Ret(I(0))]), E(Call("d")), Ret(I(0))])
+        add("snapshot-args-go-fixed-" + nm, spre + [P(Call("pv", place, Call(bump))), Ret(I(0))])
+        add("snapshot-args-go-variadic-" + nm, spre + [E(Call("pn", place, Call(bump), place)), Ret(I(0))])
+        add("snapshot-args-go-defer-" + nm, spre + [FnStmt("d", [], [Defer(Call("pn", place, Call(bump))), P(40), Ret(I(0))]), E(Call("d")), Ret(I(0))])
+        add("snapshot-mapkey-" + nm, spre + [P(M((place, Call(bump)), (S("z"), place))), Ret(I(0))])
+        add("snapshot-index-" + nm, spre + [Let("big", L(I(0), I(1), I(2), I(3), I(4), I(5), I(6), I(7), I(8), I(9), I(10))), P(Idx(Id("big"), Bin("-", place, Call(bump)))), Ret(I(0))])
+    # the base of an index / slice expression is the value read before the index operands run
+    bpre = [Let("ll", L(L(I(1), I(2), I(3)), L(I(4)))), Let("ml", M((S("k"), L(I(1), I(2), I(3))))),
+            FnStmt("bll", [], [Let([Idx(Id("ll"), I(0))], [L(I(7), I(8), I(9))]), Ret(I(0))]), FnStmt("bml", [], [Let([Member(Id("ml"), "k")], [L(I(7), I(8), I(9))]), Ret(I(0))]),
+            FnStmt("bsh", [], [Let([Idx(Id("ll"), I(0))], [L()]), Ret(I(0))])]
+    add("snapshot-index-base-item", bpre + [P(Idx(Idx(Id("ll"), I(0)), Call("bll"))), P(Id("ll")), Ret(I(0))])
+    add("snapshot-index-base-member", bpre + [P(Idx(Member(Id("ml"), "k"), Call("bml"))), Ret(I(0))])
+    add("snapshot-index-base-shrunk", bpre + [Try([P(Idx(Idx(Id("ll"), I(0)), Call("bsh")))], "e", [P(60)]), Ret(I(0))])
+    add("snapshot-slice-base-item", bpre + [P(Slice(Idx(Id("ll"), I(0)), Call("bll"), I(2))), Ret(I(0))])
+    add("snapshot-slice-base-hi", bpre + [P(Slice(Idx(Id("ll"), I(0)), I(0), Bin("+", Call("bll"), I(2)))), Ret(I(0))])
+    add("snapshot-slice-base-open-end", bpre + [Try([P(Slice(Idx(Id("ll"), I(0)), Call("bsh")))], "e", [P(60)]), Ret(I(0))])
+    add("snapshot-slice-base-member", bpre + [P(Slice(Member(Id("ml"), "k"), Call("bml"), I(3))), Ret(I(0))])
+    add("snapshot-len", bpre + [P(Bin("+", Len_(Idx(Id("ll"), I(0))), Call("bsh"))), Ret(I(0))])
+    add("snapshot-in-list", bpre + [P(In(I(7), Bin("+", Idx(Id("ll"), I(0)), L(Call("bll"))))), Ret(I(0))])
+    # an operator with a literal on one side: the other operand still runs once, whatever kind of value it yields
+    for nm, v in (("str", S("a")), ("list", L(I(1))), ("int", I(3)), ("neg", I(-3))):
+        for op in ("+", "-", "*", "==", "<"):
+            for lit_nm, lit in (("int", I(1)), ("str", S("z")), ("zero", I(0))):
+                add("binlit-r-%s%s%s" % (nm, op, lit_nm), [Try([P(Bin(op, PV(1, v), lit))], "e", [P(60)]), P(61), Ret(I(0))])
+                add("binlit-l-%s%s%s" % (nm, op, lit_nm), [Try([P(Bin(op, lit, PV(1, v)))], "e", [P(60)]), P(61), Ret(I(0))])
+        add("binlit-chain-%s" % nm, [Try([P(L(PV(1, I(0)), Bin("+", PV(2, v), I(1)), PV(3, I(0))))], "e", [P(60)]), P(61), Ret(I(0))])
+        add("binlit-opasg-%s" % nm, [Let("x", v), Try([E(OpAsg(Id("x"), "+", I(2))), P(Id("x"))], "e", [P(60)]), P(61), Ret(I(0))])
     add("snapshot-list", spre + [P(L(Idx(Id("la"), I(0)), Call("bl"), Idx(Id("la"), I(0)))), Ret(I(0))])
     add("snapshot-args", spre + [FnStmt("two", ["a", "b"], [Ret(Id("a"), Id("b"))]), P(Call("two", Idx(Id("la"), I(0)), Call("bl"))), Ret(I(0))])
     add("snapshot-tern", spre + [P(Bin("+", Tern(B(True), Idx(Id("la"), I(0)), I(0)), Call("bl"))), Ret(I(0))])
